@@ -18,7 +18,10 @@ ML = "src/buildblock/ML_norm.cxx"
 
 
 def requests():
-    return [Request(ML, fn=["stir::apply_.*", "stir::make_fan_data_remove_gaps_help", "stir::set_fan_data_add_gaps_help"], files=["/repo/src/buildblock/ML_norm.cxx"])]
+    return [
+        Request(ML, fn=["stir::apply_.*", "stir::make_fan_data_remove_gaps_help", "stir::set_fan_data_add_gaps_help"], files=["/repo/src/buildblock/ML_norm.cxx"]),
+        Request(ML, fn=["stir::(FanProjData|GeoData3D|BlockData3D|DetPairData)::.*"], files=["/repo/src/buildblock/ML_norm.cxx"]),
+    ]
 
 
 def _subs(n):
@@ -212,6 +215,79 @@ def rule_b(ctx, fns):
     ctx.ob("C20.b-fan-conversion-dual", "make_fan_data_remove_gaps_help<->set_fan_data_add_gaps_help", "transfer", to_ok and from_ok, st[0].where(), "to-fan: fan(r1,d1,r2,d2)=fan(r2,d2,r1,d1)=sino[ax][view][tang]; from-fan: sino[ax][view][tang]=fan(r1,d1,r2,d2)" if to_ok and from_ok else "transfer statements are not each other's reverse: %s / %s" % (a["transfer"][:3], b["transfer"][:3]))
 
 
+RANGE_QUERIES = ("get_min_index", "get_max_index", "get_length", "size", "get_index_range")
+
+
+def rule_c_symmetric_storage(ctx, fns):
+    """FanProjData (and GeoData3D) store the value of a detector pair ONCE: operator()(ra,a,rb,b) picks the stored copy (the other order
+    of the two detectors maps to the same element).  The raw 4-D array therefore holds, under [ra][a], only part of detector (ra,a)'s
+    fan - and possibly a stale mirror element.  Every member function other than operator() itself may use raw subscripts of the
+    underlying array only to ask for index ranges; values are read and written through operator() (or by whole-array base-class
+    operations, which treat all stored elements alike)."""
+    by_cls = {}
+    seen = set()
+    for f in fns:
+        if f.cls and f.body is not None and (f.file, f.line) not in seen:
+            seen.add((f.file, f.line))
+            by_cls.setdefault(f.cls, []).append(f)
+    n = 0
+    for cls, fs in sorted(by_cls.items()):
+        ops = [f for f in fs if f.short == "operator()"]
+        # symmetric storage: operator() chooses between subscript chains that start with different coordinates
+        sym = False
+        for f in ops:
+            for m in f.walk():
+                if m.k == "ConditionalOperator" and len(m.c) == 3:
+                    firsts = set()
+                    for br in m.c[1:]:
+                        for x in br.walk():
+                            base, idx = _this_chain(x)
+                            if base and len(idx) >= 3:
+                                firsts.add(key(idx[0]))
+                    if len(firsts) > 1:
+                        sym = True
+        if not sym:
+            continue
+        for f in fs:
+            if f.short == "operator()" or f.is_ctor:
+                continue
+            bad = []
+            for x in f.walk():
+                base, idx = _this_chain(x)
+                if not base or not idx:
+                    continue
+                # only maximal chains
+                par = x.parent
+                while par is not None and par.k in ("ImplicitCastExpr", "ParenExpr", "Cast"):
+                    par = par.parent
+                if par is not None and _this_chain(par)[0] and any(c_ is x or any(y is x for y in c_.walk()) for c_ in par.c[:1]):
+                    continue
+                use = par
+                okuse = use is not None and use.k == "MemberExpr" and use.get("n") in RANGE_QUERIES
+                if use is not None and use.k == "CXXMemberCallExpr" and (use.callee or "").split("::")[-1] in RANGE_QUERIES:
+                    okuse = True
+                if not okuse:
+                    bad.append(x)
+            if bad or any(_this_chain(x)[0] for x in f.walk()):
+                ctx.ob("C20.c-symmetric-storage-through-accessor", f.qn + "(" + f.sig[:30] + ")", "raw-subscripts", not bad, (bad[0] if bad else f).where(), "raw subscripts of the underlying array only ask for index ranges" if not bad else "`%s` reads or writes values of the underlying array directly: a detector pair is stored once (operator() picks the copy), so a raw sub-array holds only part of a detector's fan, and possibly a stale mirror element" % key(bad[0], True)[:120])
+                n += 1
+    return n
+
+
+def _this_chain(x):
+    """(True, [indices]) if x is (*this)[i][j]...; the base-class operator[] on *this"""
+    idx = []
+    n = x
+    while n is not None and n.k in ("CXXOperatorCallExpr", "ArraySubscriptExpr") and (n.k == "ArraySubscriptExpr" or n.op == "[]") and len(n.c) >= 2:
+        idx.insert(0, n.c[-1].strip())
+        n = n.c[-2].strip()
+    if not idx or n is None:
+        return False, []
+    if n.k == "UnaryOperator" and n.op == "*" and n.c and n.c[0].strip().k == "CXXThisExpr":
+        return True, idx
+    return False, []
+
+
 def run(ctx):
     ctx.explanation = (
         "Decides for ML_norm: (a) in every apply_*(data, factors, apply) the two branches on `apply` update the same element with *= "
@@ -237,3 +313,8 @@ def run(ctx):
     rule_b(ctx, fns)
     ctx.require_count("C20.a-apply-unapply-dual", 6)
     ctx.require_count("C20.b-fan-conversion-dual", 5)
+    u2 = ctx.ex.get(reqs[1])
+    if u2 is None:
+        return
+    rule_c_symmetric_storage(ctx, u2.functions)
+    ctx.require_count("C20.c-symmetric-storage-through-accessor", 6)
